@@ -4,7 +4,7 @@ round trip (C18), ring-edge bookkeeping of the graph reader (C04)."""
 import ast
 
 from .. import AnalysisError
-from ..flow import show, walk_term
+from ..flow import show, walk_term, iter_scope
 from ..report import ob_ok, ob_fail, ob_undecided
 from .common import (is_call, method_call, node_attr, edge_attr, elem_of, strip_wrappers, guards_of, enclosing_loops, need, carried_by)
 
@@ -133,6 +133,36 @@ def prov_open_bonds(repo, tier="quick"):
             why = "find_open_bonds is evaluated outside the growth loop: consumed descriptors stay in the index"
         elif not same_mol:
             why = "find_open_bonds is not applied to the whole molecule being grown"
+    if not ok and a1 and a0 and a1[0] == "var" and a0[0] == "var" and len(a1) == 3 and loops:
+        # the index kept in a variable: every definition that reaches the growth step is find_open_bonds(molecule), and
+        # nothing touches the molecule between such a definition and the growth step (built in front of the loop and
+        # rebuilt behind the step is the same sequence of calls as rebuilt in front of every step)
+        ds = [fl.defs[i] for i in a1[2]]
+        fine = bool(ds)
+        for d in ds:
+            v = fl.canon(d.value, d.node) if d.kind == "assign" and d.value is not None and not d.path else None
+            cc = is_call(v, "find_open_bonds") if v else None
+            fine = fine and bool(cc and len(cc[0]) == 1 and not cc[1] and isinstance(d.value, ast.Call) and len(d.value.args) == 1 and
+                                 isinstance(d.value.args[0], ast.Name) and d.value.args[0].id == a0[1])
+        if fine:
+            D = {d.node for d in ds}
+            touching = set()
+            for n in cfg.nodes:
+                if n.id in D or n.ast is None or n.kind not in ("stmt", "if", "while", "for", "return"):
+                    continue
+                parts = [n.ast] if n.kind in ("stmt", "return") else [n.ast.test if hasattr(n.ast, "test") else n.ast.iter]
+                for part in parts:
+                    for sub in iter_scope(part):
+                        if isinstance(sub, ast.Name) and sub.id == a0[1] and isinstance(sub.ctx, ast.Store):
+                            touching.add(n.id)
+                        if isinstance(sub, ast.Call) and any(isinstance(x, ast.Name) and x.id == a0[1] for x in
+                                                             list(sub.args) + [k.value for k in sub.keywords] +
+                                                             ([sub.func.value] if isinstance(sub.func, ast.Attribute) else [])):
+                            touching.add(n.id)
+            stale = [m for m in sorted(touching) if not cfg.must_pass(m, {gnode}, D)]
+            ok = not stale
+            if stale:
+                why = "the molecule is changed at line %d and the open-descriptor index is not rebuilt before the next growth step" % cfg.nodes[stale[0]].lineno
     (obs.append(ob_ok(oid, fi, gcall, construct="open_bonds = find_open_bonds(molecule) inside the growth loop", instance="fresh-index",
                       reason="every growth step sees exactly the descriptors that are still open")) if ok else
      obs.append(ob_fail(oid, fi, gcall, construct=why, instance="fresh-index", reason="a growth step can pick a descriptor that was already consumed")))
@@ -154,7 +184,7 @@ def prov_open_bonds(repo, tier="quick"):
         key, val = m[0][2], m[2][0]
         ek = elem_of(key)
         ev = elem_of(val)
-        if ek and ek[0] == "elem" and carried_by(ek[1], val, "bonding") == mol:
+        if ek and ek[0] == "elem" and carried_by(ek[1], val, "bonding", ffl) == mol:
             good = True
     (obs.append(ob_ok(oid, fo, construct="index[d].append(node) for node, ds in bonding(molecule).items() for d in ds", instance="index",
                       reason="an atom is offered under every descriptor it carries")) if good else
@@ -177,7 +207,7 @@ def prov_open_bonds(repo, tier="quick"):
         if not (ek and ek[0] == "elem" and val[0] == "tuple" and len(val[1]) == 2):
             continue
         name_t, node_t = val[1]
-        fg = carried_by(ek[1], node_t, "bonding")    # the descriptors of node_t in the fragment graph fg
+        fg = carried_by(ek[1], node_t, "bonding", ifl)    # the descriptors of node_t in the fragment graph fg
         if fg is not None:
             efg, ename = elem_of(fg), elem_of(name_t)
             if efg and ename and efg[0] == "value" and ename[0] == "key" and efg[1] == ename[1] and \
@@ -1464,9 +1494,30 @@ def prov_slash_marks(repo, tier="quick"):
     call, wnid, g, vals, wname = writes[0]
     obs.append(ob_ok(oid, fi, call, construct="set_node_attributes(graph, {idx: mark}, %s) from ez_isomers" % (show(wname) if wname else "?"), instance="written",
                      reason="the class marks are the ones recorded by the tokenizer"))
+    # branch edges on which the fragment is known to have exactly one atom
+    def _single(t, pol):
+        if t[0] == "unop" and t[1] == "not":
+            return _single(t[2], not pol)
+        if t[0] == "boolop" and ((t[1] == "and" and pol) or (t[1] == "or" and not pol)):
+            return any(_single(x, pol) for x in t[2])
+        if t[0] == "cmp" and t[1] in (("==",), ("!=",)) and ("const", 1) in t[2]:
+            other = [x for x in t[2] if x != ("const", 1)]
+            return bool(other and is_call(other[0], "len")) and pol == (t[1] == ("==",))
+        return False
+    single_edges = set()
+    for n in cfg.nodes:
+        if n.kind == "if":
+            t = fl.canon(n.ast.test, n.id)
+            for lab in ("T", "F"):
+                if _single(t, lab == "T"):
+                    single_edges.add((n.id, lab))
+    multi = (lambda src, dst, label: (src, label) not in single_edges) if single_edges else None
     bad = []
     for p, lab in cfg.pred[cfg.exit]:
         if cfg.must_pass(cfg.entry, {p}, {wnid}) or p == wnid:
+            continue
+        if multi is not None and cfg.must_pass(cfg.entry, {p}, {wnid}, multi):
+            # single exit: the paths around the write are the ones on which len(graph) == 1 was seen
             continue
         n = cfg.nodes[p]
         if not (n.kind == "stmt" and isinstance(n.ast, ast.Return)):
